@@ -28,8 +28,8 @@ func init() {
 			Trusted:     commonTrusted,
 		},
 		Mutants: []Mutant{
-			{Name: "handler forgets to restore the context (original defect, one field)", File: "eval.go", Old: "st.scope, st.context, st.content = scope, context, content\n", New: "st.scope, st.content = scope, content\n\t\t\t_ = context\n", Rule: "C13.restore"},
-			{Name: "handler restores nothing (original defect)", File: "eval.go", Old: "\t\t\tst.scope, st.context, st.content = scope, context, content\n", New: "\t\t\t_, _, _ = scope, context, content\n", Rule: "C13.restore"},
+			{Name: "handler forgets to restore the context (original defect, one field)", File: "eval.go", Old: "since the later defer ran first\n\t\t\tst.scope, st.context, st.content = scope, context, content\n", New: "since the later defer ran first\n\t\t\tst.scope, st.content = scope, content\n\t\t\t_ = context\n", Rule: "C13.restore"},
+			{Name: "handler restores nothing (original defect)", File: "eval.go", Old: "since the later defer ran first\n\t\t\tst.scope, st.context, st.content = scope, context, content\n", New: "since the later defer ran first\n\t\t\t_, _, _ = scope, context, content\n", Rule: "C13.restore"},
 			{Name: "state restored only after the catch list ran", File: "eval.go", Old: "\t\t\tst.scope, st.context, st.content = scope, context, content\n\t\t\tif try.Catch != nil {", New: "\t\t\tdefer func() { st.scope, st.context, st.content = scope, context, content }()\n\t\t\tif try.Catch != nil {", Rule: "C13.restore"},
 			{Name: "buffer copied on both paths", File: "eval.go", Old: "\t\tif r == nil {\n\t\t\tio.Copy(writer, buf)\n\t\t} else {", New: "\t\tio.Copy(writer, buf)\n\t\tif r != nil {", Rule: "C13.buffer"},
 			{Name: "catch runs before the writer is restored (defer order)", File: "eval.go", Old: "\tst.Writer = buf\n\tdefer func() { st.Writer = writer }()\n\n\treturn st.executeList(try.List)", New: "\tst.Writer = buf\n\n\tdefer func() { st.Writer = writer }()\n\tdefer func() { _ = recover() }()\n\treturn st.executeList(try.List)", Rule: "C13.buffer"},
